@@ -20,10 +20,12 @@ TStatic ==
   /\ LET net == Traces[tid].net IN
      /\ Chk("EmittedTablesReadable", Ev.ok)
      /\ Chk("ElementListIsTheAtomsPresent", Ev.elements_ok)
-     /\ Chk("Additive", Additive(net))
-     /\ Chk("Coupling", Coupling(net))
+     \* what was emitted first, then the two facts about the network itself that make it work (a network for which they fail -- a recorded
+     \* finding -- must not hide a wrong table)
      /\ Chk("MatrixCoefficients", \A i, j \in 1..NE(net) : Triples(Ev.M[(i - 1) * NE(net) + j]) = MTerms(net, i, j))
      /\ Chk("SpeciesFactors", \A s \in 1..NSp(net) : Triples(Ev.F[s]) = FTerms(net, s))
+     /\ Chk("Coupling", Coupling(net))
+     /\ Chk("Additive", Additive(net))
   /\ UNCHANGED rvars2
 TSetRef  == IsEv("SetRef") /\ SetRef(Ev.v) /\ Chk("SetRefSucceeds", Ev.ok)
 TPerturb == IsEv("Perturb") /\ Perturb
